@@ -108,10 +108,17 @@ def rules(ctx: Ctx) -> None:
         ok_iter = len(c.generators) == 1 and u(inner) in (f"{gparam}.edges", f"{gparam}.edges()") and not g.ifs
         ctx.ob("R18.1", "edges:all-edges-of-the-same-graph", ok_iter, where, f"`{u(it)}`: edges come from the same graph object as the nodes, without filter")
         tgt = g.target
-        edge_var = u(tgt.elts[1]) if isinstance(tgt, ast.Tuple) and len(tgt.elts) == 2 and inner is not it else u(tgt)
+        # the loop target that stands for the edge: `e`, `(i, e)`, `(s, t)` or `(i, (s, t))`
+        etgt = tgt.elts[1] if inner is not it and isinstance(tgt, ast.Tuple) and len(tgt.elts) == 2 else (tgt if inner is it else None)
+        if isinstance(etgt, ast.Name):
+            ends = {0: f"{etgt.id}[0]", 1: f"{etgt.id}[1]"}
+        elif isinstance(etgt, (ast.Tuple, ast.List)) and len(etgt.elts) == 2 and all(isinstance(e_, ast.Name) for e_ in etgt.elts):
+            ends = {0: etgt.elts[0].id, 1: etgt.elts[1].id}
+        else:
+            ends = {}
         for end, idx in (("source", 0), ("target", 1)):
             cs = canon_str_of(d[end])
-            ok = cs in (f"{edge_var}[{idx}]",) or (isinstance(tgt, ast.Tuple) and len(tgt.elts) == 2 and inner is it and cs == u(tgt.elts[idx]))
+            ok = cs is not None and cs == ends.get(idx)
             ctx.ob("R18.1", f"edges:{end}-is-str-of-endpoint", ok, where, f"{end} = `{u(d[end])}` must be the printed name of edge endpoint {idx} (same projection as node ids)")
     # compound parents
     pd_defs = [(k, n) for k, n in prog.local_defs(ser, "parents_dict")] if prog.local_defs(ser, "parents_dict") else []
@@ -140,7 +147,39 @@ def rules(ctx: Ctx) -> None:
         if dname is None:
             dc = False
         if dc is None:
-            raise AnalysisError(f"R18.1: dictionary `{dname}` of compound parents is not a dict comprehension")
+            # the same dictionary written as a loop: `for n in graph.nodes: ... d[K(n)] = {...}` with a store on every path of the body
+            from ..cfg import flow as _flow18
+
+            scfg = _flow18(prog, ser).cfg
+            loops_ = [L_ for L_ in prog.walk_fn(ser) if isinstance(L_, ast.For) and u(L_.iter) == f"{gparam}.nodes"
+                      and any(isinstance(k_, ast.Subscript) and isinstance(k_.ctx, ast.Store) and isinstance(k_.value, ast.Name) and k_.value.id == dname for k_ in ast.walk(L_))]
+            if len(loops_) != 1:
+                raise AnalysisError(f"R18.1: dictionary `{dname}` of compound parents is built neither by a dict comprehension nor by one loop over the graph's nodes")
+            L_ = loops_[0]
+            stores_ = [k_ for k_ in ast.walk(L_) if isinstance(k_, ast.Subscript) and isinstance(k_.ctx, ast.Store) and isinstance(k_.value, ast.Name) and k_.value.id == dname]
+            hdr = scfg.node_for(L_)
+            snodes = [scfg.node_for(k_) for k_ in stores_]
+            starts = [b_ for b_ in scfg.g.successors(hdr) if scfg.g[hdr][b_].get("label") and scfg.g[hdr][b_]["label"][1] is True]
+            every_path = all(x is not None for x in snodes) and not any((b_ not in snodes) and scfg.reach(b_, hdr, avoid=snodes) for b_ in starts)
+            ctx.ob("R18.1", "parents:built-from-all-nodes-no-filter", every_path, loc(ser.mod, L_),
+                   f"`for {u(L_.target)} in {u(L_.iter)}`: every node contributes its parent entry on every path of the loop body (a node that is skipped leaves a dangling parent reference)")
+            lv = u(L_.target)
+
+            def _key_text(k_: ast.Subscript) -> str:
+                e_ = k_.slice
+                if isinstance(e_, ast.Name):
+                    srcs_ = [v_ for v_ in prog.value_sources(ser, e_) if not (isinstance(v_, ast.Name) and v_.id == e_.id)]
+                    if len(srcs_) == 1:
+                        e_ = srcs_[0]
+                return u(e_).replace(lv, "§")
+
+            keys_ = {_key_text(k_) for k_ in stores_}
+            nodevar = u(c.generators[0].target)
+            ctx.ob("R18.1", "parents:reference-uses-the-dictionary-key", keys_ == {kexpr.replace(nodevar, "§")}, where,
+                   f"the parent reference looks up `{kexpr}`, the dictionary is keyed by {sorted(keys_)}: same projection of the node")
+            plain = not any(isinstance(x, ast.Call) and isinstance(x.func, ast.Attribute) and x.func.attr == "get" for x in ast.walk(pref)) and not isinstance(prog.parent(pref), (ast.IfExp, ast.BoolOp))
+            ctx.ob("R18.1", "parents:reference-has-no-fallback", plain, where, "the parent reference is a plain look-up of the dictionary entry (no placeholder that is never emitted)")
+            dc = False
         if dc is not False:
             g = dc.generators[0]
             nodevar = u(c.generators[0].target)
@@ -153,6 +192,7 @@ def rules(ctx: Ctx) -> None:
             # the reference must be a plain look-up (no fallback / default)
             plain = not any(isinstance(x, ast.Call) and isinstance(x.func, ast.Attribute) and x.func.attr == "get" for x in ast.walk(pref)) and not isinstance(prog.parent(pref), (ast.IfExp, ast.BoolOp))
             ctx.ob("R18.1", "parents:reference-has-no-fallback", plain, where, "the parent reference is a plain look-up of the dictionary entry (no placeholder that is never emitted)")
+        if dname is not None:
             # emitted parent nodes: id = entry[field], all entries
             emitted = [(pc, pdct) for pc, pdct in parent_comps if dname in u(pc.generators[0].iter)]
             ctx.ob("R18.1", "parents:emitted", len(emitted) == 1, where, "the compound parents are emitted as nodes")
@@ -194,7 +234,7 @@ def rules(ctx: Ctx) -> None:
     ctx.ob("R18.1", "returns-nodes-and-edges", ok_ret, loc(ser.mod, rets[0]) if rets else ser.loc(), "the export is nodes + edges")
     # nodes list is only extended (never filtered / de-duplicated by dropping)
     for n in prog.walk_fn(ser):
-        if isinstance(n, ast.Assign) and any(isinstance(t, ast.Name) and t.id in (node_names | edge_names) for t in n.targets) and not isinstance(n.value, (ast.ListComp, ast.List)):
+        if isinstance(n, ast.Assign) and any(isinstance(t, ast.Name) and t.id in (node_names | edge_names) for t in n.targets) and not _pure_concat(n.value):
             ctx.ob("R18.1", "no-post-filtering", False, loc(ser.mod, n), f"`{u(n)[:70]}` rewrites the exported list after it was built")
 
     # ---- R18.2 identity rule I3 -------------------------------------------------------------
